@@ -187,6 +187,7 @@ type hsHist struct {
 	feat    map[string]bool
 	space   int
 	maxT    uint64
+	forged  []uint64 // payload numbers that are altered copies of a captured genuine stage 1
 }
 
 func newHsHist(c *hx.Ctx, my []uint64, pref bool, space int) *hsHist {
@@ -339,6 +340,15 @@ func (h *hsHist) opStage1(pk int, v uint64, script []uint32) {
 	served := h.w.DeliverStage1(q.id, v, script)
 	h.record(hx.App("RespStage1", hx.N(q.id), hx.NList(hsU32s(served)), hx.N(uint64(q.ridx)), hx.N(q.t), hx.NList(p.addrs), hx.N(v)),
 		[]any{"stage1", q.id, hsU32s(served), q.ridx, q.t, p.addrs, v})
+}
+
+// alterPkt: an attacker's copy of captured payload pk with the peer-reported time rewritten to t.
+func (h *hsHist) alterPkt(pk int, t uint64) int {
+	q := h.pkts[pk]
+	id := h.w.AlterStage1Time(q.id, t)
+	h.pkts = append(h.pkts, hsPkt{id: id, peer: q.peer, ridx: q.ridx, t: t})
+	h.forged = append(h.forged, id)
+	return len(h.pkts) - 1
 }
 
 func (h *hsHist) newPkt(peer int, ridx uint32, t uint64) int {
@@ -637,6 +647,17 @@ func (h *hsHist) kind() string {
 	return "hist+" + strings.Join(fs, "+")
 }
 
+// emitForged emits the history under the reading "a replayed - possibly altered - first message never replaces the
+// primary" (known finding F27): the case carries the payload numbers that are altered copies.
+func (h *hsHist) emitForged(cw *hx.CaseWriter, label string) {
+	var peers [][]uint64
+	for _, p := range h.peers {
+		peers = append(peers, p.addrs)
+	}
+	cw.Add(hx.App("CHsF", h.cfgLit(), hx.NList(h.forged), hx.List(h.steps), hsDumpLit(h.prev)), label, true,
+		map[string]any{"my": h.my, "preferred": h.pref, "peers": peers, "ops": h.ops, "altered_stage1": h.forged})
+}
+
 func (h *hsHist) emit(cw *hx.CaseWriter, label string) {
 	n := 0
 	for _, f := range []string{"resend", "wrong", "self", "evict", "collide", "test", "multi"} {
@@ -660,8 +681,29 @@ func (h *hsHist) emit(cw *hx.CaseWriter, label string) {
 
 func hsA(a uint64) []nebula.VerifHSPeerAddr { return []nebula.VerifHSPeerAddr{{Addr: a, Bits: 8}} }
 
+// hsForgedWitness: known finding F27 on the real code. The first message of Noise IX is not authenticated when the
+// responder acts on it; an attacker rewrites the peer-reported time of a captured stage 1 (no key needed) and sends
+// it from its own address: it is taken as a newer handshake - a new tunnel for the peer becomes primary with the
+// attacker's address as remote; five altered copies evict the genuine tunnel; a time in the future makes the peer's
+// genuine later handshake be refused as too old.
+func hsForgedWitness(c *hx.Ctx) *hsHist {
+	h := newHsHist(c, []uint64{1}, false, 60)
+	p := h.addPeer(2, hsA(3))
+	genuine := h.newPkt(p, 7, 5)
+	h.opStage1(genuine, 1, []uint32{10}) // the genuine handshake: tunnel 1
+	h.opStage1(h.alterPkt(genuine, 6), 4, []uint32{11}) // altered copy from the attacker's address 4: replaces the primary
+	for i := 0; i < 4; i++ {
+		h.opStage1(h.alterPkt(genuine, uint64(7+i)), 4, []uint32{uint32(12 + i)}) // the fifth evicts the genuine tunnel
+	}
+	h.opStage1(h.alterPkt(genuine, 1000), 4, []uint32{20})
+	h.opStage1(h.newPkt(p, 8, 50), 1, []uint32{21}) // the peer's genuine re-handshake (time 50 < 1000): refused as too old
+	return h
+}
+
 func hsCorpus(c *hx.Ctx, cw *hx.CaseWriter) {
 	max := int(nebula.VerifHSMaxHostInfosPerVpnIp)
+	// 0. the F27 history judged as an ordinary history (model against implementation, the C09/C10 specifications as proved)
+	hsForgedWitness(c).emit(cw, "corpus-altered-stage1")
 	// 1. replay right after completion, after rotation to the per-address limit, and after the tunnel was evicted
 	{
 		h := newHsHist(c, []uint64{1}, false, 60)
@@ -775,6 +817,10 @@ func hsCorpus(c *hx.Ctx, cw *hx.CaseWriter) {
 
 func runHsmgr(c *hx.Ctx, check string) {
 	cw := c.NewCaseWriter("From NV Require Import model.HostMap model.HsMgr corr.HsMgr_corr.", "HsMgr_corr.case", check, 10)
+	if check == "HsMgr_corr.check_case10" {
+		// first: the witness of known finding F27, judged under the reading it violates (code 2 expected)
+		hsForgedWitness(c).emitForged(cw, "ix-responder-unauthenticated-msg1")
+	}
 	hsCorpus(c, cw)
 	for i := 0; i < c.N; i++ {
 		my := []uint64{1}
